@@ -212,6 +212,7 @@ impl Ctx {
         extra: Map<String, Value>,
         required: &[(String, bool)],
     ) -> ! {
+        crate::evlog::flush();
         let (known, _fixed) = self.known();
         let mut real: Vec<&Violation> = Vec::new();
         let mut known_hit: BTreeMap<String, (u64, String)> = BTreeMap::new();
